@@ -1076,7 +1076,7 @@ fn g_item(r: &mut Rng, big: bool) -> Term {
             }
             6 if r.chance(1, 4) => {
                 let rid = *r.pick(&[[10u8, 0, 0, 1], [1, 1, 1, 1], [192, 168, 0, 1]]);
-                return Term::tag("ev-locup", vec![Term::bytes(&rid), Term::nat(*r.pick(&[1u32, 65001, 65536, 4200000001])), q()]);
+                return Term::tag("ev-locup", vec![Term::bytes(&rid), Term::nat(*r.pick(&[1u32, 65001, 65535, 65536, 4200000001, u32::MAX])), q()]);
             }
             6 => {
                 let reason = match r.below(7) {
